@@ -33,7 +33,7 @@ struct HistCase {
 
 const BOUND_POOL: [f64; 10] = [f64::NEG_INFINITY, -10.0, -1.0, -0.0, 0.0, 0.5, 1.0, 2.5, 100.0, f64::INFINITY];
 
-fn case_hist(bytes: &[u8], _s: &[u8], ctx: &mut Ctx) -> Result<(), Fail> {
+pub fn case_hist(bytes: &[u8], _s: &[u8], ctx: &mut Ctx) -> Result<(), Fail> {
     let mut src = Source::new(bytes);
     let nb = 1 + src.below(6);
     let mut idx: Vec<usize> = (0..nb).map(|_| src.below(BOUND_POOL.len())).collect();
@@ -182,7 +182,7 @@ fn expected_bounds(case: &MatchCase, name: &str) -> Option<Vec<Vec<f64>>> {
     }
 }
 
-fn case_match(bytes: &[u8], _s: &[u8], ctx: &mut Ctx) -> Result<(), Fail> {
+pub fn case_match(bytes: &[u8], _s: &[u8], ctx: &mut Ctx) -> Result<(), Fail> {
     let mut src = Source::new(bytes);
     let case = dec_match(&mut src);
     ctx.case(&case);
@@ -255,7 +255,7 @@ struct RollCase {
     positive_only: bool,
 }
 
-fn case_roll(bytes: &[u8], _s: &[u8], ctx: &mut Ctx) -> Result<(), Fail> {
+pub fn case_roll(bytes: &[u8], _s: &[u8], ctx: &mut Ctx) -> Result<(), Fail> {
     let mut src = Source::new(bytes);
     let buckets = 1 + src.below(5) as u32;
     let dur_ns = *src.pick(&[1_000u64, 1_000_000_000, 20_000_000_000]);
